@@ -1,3 +1,5 @@
+//go:build verif
+
 package props
 
 // C08 — ChanCaster. Three engines:
@@ -458,7 +460,17 @@ func TestC08CasterFree(t *testing.T) {
 				sy[i] = append(sy[i], rapid.IntRange(0, 4).Draw(t, "sy"))
 			}
 		}
-		trace := []string{fmt.Sprintf("recv=%v", rs), fmt.Sprintf("send=%v", sy)}
+		hookY := map[int]int{
+			bigbuff.VerifCasterArmed:    rapid.SampledFrom([]int{0, 0, 1, 3, 10}).Draw(t, "hookArmed"),
+			bigbuff.VerifCasterNegAdded: rapid.SampledFrom([]int{0, 0, 1, 3, 10}).Draw(t, "hookNeg"),
+		}
+		bigbuff.VerifSetHook(func(p int) {
+			for i := hookY[p]; i > 0; i-- {
+				runtime.Gosched()
+			}
+		})
+		defer bigbuff.VerifSetHook(nil)
+		trace := []string{fmt.Sprintf("recv=%v", rs), fmt.Sprintf("send=%v hooks=%v", sy, hookY)}
 		vkit.CaseStart(func() string { return strings.Join(trace, " ; ") })
 
 		var (
